@@ -15,6 +15,7 @@ Requests
   rtl watchok <design> (ids...) (watch...) → `watchok <0|1>`
   rtl sim     <design> (entries...) (ff ids...) (cycles ((sig val)...) ...) [fuel]
                                            → `ok ((vals after eval_comb) (vals after tick)) ...` | `cyclic <cycle>`
+  rtl entries <design> (entries...)        → `entries <perm> <wfBlocks> <entriesTopoB> <watchesOKB>`
   rtl kahn    (V...) ((a b)...) (picks...) → `order (ids...)`
 design  := (design (widths w...) (comb blk...) (ff blk...))
 blk     := (blk id asg...)         asg := (asg sig lo w expr)
@@ -175,6 +176,17 @@ def handle (args : List Sexp) : Option String :=
       | [f] => f.nat?
       | _ => none
     some (simulate D entries ffs cycles fuel)
+  | [.atom "entries", d, .list es] => do
+    -- hypotheses of C11.whole_schedule evaluated on a real schedule: wfBlocks, entriesTopoB, watchesOKB
+    let D ← design? d
+    let ids ← es.mapM entryId?
+    let ents ← ids.mapM (fun e => match e with
+      | .b id => do some (Entry.blk (← lookupBlk D.comb id))
+      | .scc is w => do some (Entry.scc (← is.mapM (lookupBlk D.comb)) w))
+    let bs := allBlocks ents
+    let wf := bs.all (·.noSelf) && singleWriterB bs
+    let perm := bs.length == D.comb.length && (bs.map (·.id)).eraseDups.length == bs.length
+    some s!"entries {b2s perm} {b2s wf} {b2s (entriesTopoB ents)} {b2s (watchesOKB ents)}"
   | [.atom "kahn", vs, es, ps] => do
     let V ← vs.nats?
     let E ← pairs? es
